@@ -660,7 +660,7 @@ func registerTime(e *Engine) {
 		tt := deref(fr.fn.Signature.Results().At(0).Type())
 		var cell Value = zero(tt)
 		st := cell.(structure)
-		ch := &Chan{cap: 1, elemT: ex.eng.namedType("time", "Time")}
+		ch := &Chan{cap: 1, elemT: ex.eng.namedType("time", "Time"), ticker: true}
 		st[0] = ch
 		return &cell
 	})
